@@ -125,9 +125,10 @@ def check_trace(work, cmd, tracespec, scripts, seed, tier, tag, jobs=12):
     return rep, res, viol, lines
 
 
-def family(pid, work, tier, seed, cmd, tracespec, scripts, design, sigfn, rule, jobs=12, owns=None):
+def family(pid, work, tier, seed, cmd, tracespec, scripts, design, sigfn, rule, jobs=12, owns=None, tag=None):
     out = _outcome()
-    rep, res, viol, lines = check_trace(work, cmd, tracespec, scripts, seed, tier, pid.lower(), jobs)
+    tag = tag or pid.lower()
+    rep, res, viol, lines = check_trace(work, cmd, tracespec, scripts, seed, tier, tag, jobs)
     owns = owns or (lambda v: guard_property(v["guard"]) == pid)
     mine = [v for v in viol if owns(v)]
     byid = {s["id"]: s for s in scripts}
@@ -139,7 +140,7 @@ def family(pid, work, tier, seed, cmd, tracespec, scripts, design, sigfn, rule, 
             if v["script"] not in per[sigfn(v, byid.get(v["script"]))] and len(per[sigfn(v, byid.get(v["script"]))]) < 3:
                 per[sigfn(v, byid.get(v["script"]))].append(v["script"])
         sids = sorted({x for l in per.values() for x in l})
-        rep2, res2, viol2, _ = check_trace(work, cmd, tracespec, [byid[x] for x in sids], seed, tier, pid.lower() + "-confirm", jobs)
+        rep2, res2, viol2, _ = check_trace(work, cmd, tracespec, [byid[x] for x in sids], seed, tier, tag + "-confirm", jobs)
         again = {sigfn(v, byid.get(v["script"])) for v in viol2 if owns(v)}
         conf = [v for v in mine if sigfn(v, byid.get(v["script"])) in again]
         if not conf:
@@ -304,12 +305,33 @@ def gen_relay(work, tier, seed):
     # the client stops reading for several seconds while the host keeps sending, then reads on: the gateway's writes
     # block meanwhile, and what finally arrives is still exactly the host's stream in well-formed packets
     for tr in ("ws", "legacy"):
-        for k, ms in enumerate([6500] if tier == "quick" else [1500, 6500, 12000]):
+        for k, ms in enumerate([6500, 12000] if tier == "quick" else [1500, 6500, 12000, 21000]):
             token = k % 2 == 1
             acts = [{"a": "bs", "n": 300}, {"a": "bstall", "n": 24 << 20, "ms": ms}, {"a": "cs", "decl": 9, "carr": 9}, {"a": "bs", "n": 5000}]
             scripts.insert(0, {"id": "y%05d" % len(scripts), "origin": "stall:%d" % ms, "cfg": base_cfg(token), "transport": tr,
                                "tun": dict(H_A, user="user1" if token else "nuser1"), "steps": session(token)[:4], "actions": acts})
     return design, scripts
+
+
+def stalled_stream_scripts(tier):
+    """The packets the gateway sends to a client that stops reading for a while (longer than any plausible write deadline)
+    while its host keeps sending, and then reads on: data packets and what follows them."""
+    scripts = []
+    for tr in ("legacy", "ws"):
+        for k, ms in enumerate([12000] if tier == "quick" else [6500, 12000, 21000, 33000]):
+            token = (k + (tr == "ws")) % 2 == 1
+            acts = [{"a": "bs", "n": 300}, {"a": "bstall", "n": 24 << 20, "ms": ms}, {"a": "cs", "decl": 9, "carr": 9}, {"a": "bs", "n": 5000}, {"a": "bs", "n": 70000}]
+            scripts.append({"id": "z%05d" % len(scripts), "origin": "stall:%d" % ms, "cfg": base_cfg(token), "transport": tr,
+                            "tun": dict(H_A, user="user1" if token else "nuser1"), "steps": session(token)[:4], "actions": acts})
+    return scripts
+
+
+def c16_stream(work, tier, seed, design):
+    def sig(v, s):
+        e = v["event"]
+        return "%s/b2c.%s/%s" % (v["guard"], e.get("sizecls"), e.get("transport"))
+    return family("C16", work, tier, seed, "relay", "RelayTrace", stalled_stream_scripts(tier), design, sig,
+                  "data packets sent to a client that stalls while its host streams, and the packets after it", jobs=4, tag="c16-stream")
 
 
 def c06(work, tier, seed, replay=None):
